@@ -15,13 +15,13 @@ for i in range(1, 21):
     c = e["coverage"]
     s = c.get("thorough_box_sample") or {}
     off, fin = s.get("offered", 0), s.get("finished", 0)
-    total = c.get("jobs_total", 0) - off
-    done = c.get("jobs_finished", 0) - fin
+    total = c.get("jobs_total", 0)
+    done = c.get("jobs_finished", 0)
     extra = ""
     k = c.get("kani")
     if k:
         extra = f"; Kani {k.get('harnesses_verified')} / {k.get('harnesses_total')} harnesses"
-    rows.append(f"| {pid} {TITLE[pid]} | {done:,} / {total:,}{extra} | {fin:,} / {off:,} | {c.get('states', 0):,} | {c.get('solver_decided_points', 0):,} | {e['wall_s']:.0f} s |".replace(",", " "))
+    rows.append(f"| {pid} {TITLE[pid]} | {done:,} / {total:,}{extra} | {fin:,} / {off:,} | {c.get('states', 0):,} | {c.get('solver_decided_points', 0):,} | {e['wall_s']:.0f} s |".replace(",", " ").replace("boundaries  lax", "boundaries, lax"))
 p = "/verif/DESIGN.md"
 s = open(p).read()
 a = s.index("| check | ")
